@@ -16,7 +16,8 @@ class C17(Spec):
     rule = ("documents {key: value, mediaType: ...} with value drawn from every JSON kind: null, booleans, numbers (literals "
             "-0, 0.5, -5, 2^53+-1, 2^63, 2^64-2048, 2^64, 1e300, 5e-324, exponent/fraction spellings of integers, k*2^e around "
             "every power of two), strings (control characters, tabs only, empty, RFC 3339 edge cases, URLs, media types), "
-            "arrays, objects; every accessor is applied to the key, to a missing key and under a mediaType sibling. "
+            "arrays, objects; the alphabet of a media type exhaustively (every ASCII character at the start, inside and at the end of "
+            "the supertype, the subtype and a parameter); every accessor is applied to the key, to a missing key and under a mediaType sibling. "
             "non-trivial = the value under the key is present (not missing/null). All nine accessors are compared per case.")
     assumptions = ["time.Parse(RFC3339) and url.Parse are oracles: the harness calls the library on the scrubbed string and "
                    "the model is given the answer (time: seconds+nanoseconds; url: String())",
@@ -50,6 +51,13 @@ class C17(Spec):
             if mt is not None:
                 doc["mediaType"] = mt if not isinstance(mt, int) else jsongen.Num(str(mt))
             cases.append(acc_case(doc, "k"))
+        # the alphabet of a media type, exhaustively: every ASCII character (and a few beyond) at the start, inside and at the end
+        # of the supertype and of the subtype, and in a parameter
+        for c in [chr(x) for x in range(0x20, 0x7f)] + ["\u00e9", "\u2028", "\t"]:
+            for mt in (c + "text/plain", "te" + c + "xt/plain", "text" + c + "/plain", "text/" + c + "plain", "text/pl" + c + "ain",
+                       "text/plain" + c, "text/plain;" + c + "=1", c + "/" + c):
+                cases.append(acc_case({"k": mt}, "k"))
+            cases.append(acc_case({"k": "content", "mediaType": "text/" + c + "html"}, "k"))
         cases += self.gen(rng, 3000 if tier == "quick" else 150000)
         if tier == "thorough":
             for e in range(0, 71):
